@@ -41,10 +41,11 @@ impl<I: SetsockoptSyscall> SetsockoptSyscall for NioSetsockoptSyscall<I> {
     ) -> c_int {
         let r= self.inner.setsockopt(fn_ptr, socket, level, name, value, option_len);
         if 0 == r && libc::SOL_SOCKET == level {
+            // the option may be set any number of times, before or after I/O: the latest value wins
             if libc::SO_SNDTIMEO == name {
-                assert!(SEND_TIME_LIMIT.insert(socket, get_time_limit(unsafe { &*value.cast::<timeval>() })).is_none());
+                _ = SEND_TIME_LIMIT.insert(socket, get_time_limit(unsafe { &*value.cast::<timeval>() }));
             } else if libc::SO_RCVTIMEO == name {
-                assert!(RECV_TIME_LIMIT.insert(socket, get_time_limit(unsafe { &*value.cast::<timeval>() })).is_none());
+                _ = RECV_TIME_LIMIT.insert(socket, get_time_limit(unsafe { &*value.cast::<timeval>() }));
             }
         }
         r
